@@ -433,7 +433,9 @@ class XMIResource(Resource):
                     node.append(entry)
             elif feat.is_attribute:
                 etype = feat._eType
-                if feat.many and value:
+                if feat.many:
+                    if not value:
+                        continue
                     to_str = etype.to_string
                     has_special_char = False
                     result_list = []
